@@ -13,17 +13,37 @@ Theorem C05_exit_roundtrip : forall x,
 Proof. exact exit_roundtrip. Qed.
 Print Assumptions C05_exit_roundtrip.
 
-(* every action kind of action_map, pass-through kinds with arbitrary members included *)
+(* every action kind of action_map, pass-through kinds with arbitrary members included.
+   [typed_field_ok a] is [True] on a tree that carries the repair "a typed contact field
+   reference renders its own type" (probe fieldref_renders_own_type, regenerated from the code
+   under check) and [untyped_field a] on a tree that does not: see the two corollaries. *)
 Theorem C05_action_roundtrip : forall a,
-  wf_action a -> untyped_field a ->
+  wf_action a -> typed_field_ok a ->
   bind (load_action (emit_action a)) render_action = Ok (norm_action (emit_action a)).
 Proof. exact action_roundtrip. Qed.
 Print Assumptions C05_action_roundtrip.
 
+(* the repaired tree: no restriction on field references *)
+Theorem C05_action_roundtrip_repaired :
+  fieldref_renders_own_type = true ->
+  forall a, wf_action a ->
+  bind (load_action (emit_action a)) render_action = Ok (norm_action (emit_action a)).
+Proof. exact action_roundtrip_repaired. Qed.
+Print Assumptions C05_action_roundtrip_repaired.
+
+(* either tree: field references without a (truthy) type *)
+Theorem C05_action_roundtrip_untyped : forall a,
+  wf_action a -> untyped_field a ->
+  bind (load_action (emit_action a)) render_action = Ok (norm_action (emit_action a)).
+Proof. exact action_roundtrip_untyped. Qed.
+Print Assumptions C05_action_roundtrip_untyped.
+
 Example C05_action_roundtrip_nonvacuous :
   let a := XSend (s1 1) (s1 2) [s1 3; JStr []] (JArr []) (Some (JBool false)) None None in
-  wf_action a /\ untyped_field a /\ norm_action (emit_action a) <> emit_action a.
-Proof. cbn. split; [intros t H; discriminate H|]. split; [exact I|]. intros H. vm_compute in H. discriminate H. Qed.
+  let b := XSetField (s1 1) {| xf_name := s1 65; xf_key := s1 97; xf_type := Some (s1 116) |} (s1 53) in
+  (wf_action a /\ typed_field_ok a /\ untyped_field a /\ norm_action (emit_action a) <> emit_action a)
+  /\ (wf_action b /\ ~ untyped_field b /\ (fieldref_renders_own_type = true -> typed_field_ok b)).
+Proof. exact action_roundtrip_nonvacuous. Qed.
 Print Assumptions C05_action_roundtrip_nonvacuous.
 
 Theorem C05_trigger_roundtrip : forall t,
@@ -51,15 +71,21 @@ Theorem C05_render_keys_ok : render_keys_ok = true.
 Proof. exact render_keys_ok_true. Qed.
 Print Assumptions C05_render_keys_ok.
 
-(* ---- refutations: the full statement is false of the faithful model *)
-Theorem C05_typed_field_refuted : roundtrip w_typed_field <> Ok (norm w_typed_field).
-Proof. exact typed_field_refuted. Qed.
-Print Assumptions C05_typed_field_refuted.
+(* ---- the two repaired defects: the witness documents that recorded them are reproduced exactly
+   when the tree under check carries the repair (regenerated probes) *)
+Theorem C05_typed_field_witness :
+  if fieldref_renders_own_type then roundtrip w_typed_field = Ok (norm w_typed_field)
+  else roundtrip w_typed_field <> Ok (norm w_typed_field).
+Proof. exact typed_field_witness. Qed.
+Print Assumptions C05_typed_field_witness.
 
-Theorem C05_group_attrs_refuted : roundtrip w_group_attrs <> Ok (norm w_group_attrs).
-Proof. exact group_attrs_refuted. Qed.
-Print Assumptions C05_group_attrs_refuted.
+Theorem C05_group_attrs_witness :
+  if validate_keeps_group_attrs then roundtrip w_group_attrs = Ok (norm w_group_attrs)
+  else roundtrip w_group_attrs <> Ok (norm w_group_attrs).
+Proof. exact group_attrs_witness. Qed.
+Print Assumptions C05_group_attrs_witness.
 
+(* ---- refutations: the full statement is false of the faithful model (open findings) *)
 Theorem C05_category_order_refuted : roundtrip w_category_order <> Ok (norm w_category_order).
 Proof. exact category_order_refuted. Qed.
 Print Assumptions C05_category_order_refuted.
